@@ -666,3 +666,36 @@ mod sync_layer_tests {
         assert_eq!(inputs[1].0.inp, 0); // default
     }
 }
+
+#[cfg(feature = "verif-hooks")]
+impl<T: Config> SyncLayer<T> {
+    /// Game states are represented by the (frame, checksum) pair the user saved with them.
+    pub(crate) fn verif_digest(&self, out: &mut Vec<u8>) {
+        use crate::verif_hooks::Digest;
+        let Self {
+            num_players,
+            max_prediction,
+            saved_states,
+            last_confirmed_frame,
+            last_saved_frame,
+            current_frame,
+            input_queues,
+        } = self;
+        num_players.digest(out);
+        max_prediction.digest(out);
+        let SavedStates { states } = saved_states;
+        states.len().digest(out);
+        for cell in states {
+            let inner = cell.0.lock();
+            inner.frame.digest(out);
+            inner.data.is_some().digest(out);
+            inner.checksum.digest(out);
+        }
+        last_confirmed_frame.digest(out);
+        last_saved_frame.digest(out);
+        current_frame.digest(out);
+        for q in input_queues {
+            q.verif_digest(out);
+        }
+    }
+}
